@@ -164,6 +164,14 @@ def strip_lean_comments(src: str) -> str:
   return ''.join(out)
 
 
+def load_sigs(pid):
+  """pinned statement hashes of the property theorems of `pid` (None when no .sig file is committed)."""
+  p = os.path.join(LEAN, 'index', f'{pid}.sig')
+  if not os.path.exists(p):
+    return None
+  return dict(l.split() for l in open(p) if l.strip() and not l.startswith('#'))
+
+
 def load_known():
   with open(os.path.join(VERIF, 'known_findings.json')) as f:
     return json.load(f)
@@ -219,7 +227,15 @@ class Ctx:
       if m:
         self.breaks.append(dict(kind='proof', name=f'forbidden construct in {f}',
                                 detail=m.group(0).strip(), input=None))
-    body = f'import {module}\n' + ''.join(f'#print axioms {t}\n' for t in theorems)
+    # `#sig` prints a structural hash of the elaborated STATEMENT (the type) of each theorem: compared with the hashes
+    # pinned in lean/index/<pid>.sig (written by harness/pinsigs.py and committed), so that a theorem cannot be
+    # weakened, or dropped together with its index line, without the check noticing
+    body = (f'import {module}\nimport Lean\nopen Lean Elab Command in\n'
+            'elab "#sig " id:ident : command => do\n'
+            '  let c ← liftCoreM <| realizeGlobalConstNoOverloadWithInfo id\n'
+            '  let some info := (← getEnv).find? c | throwError "unknown constant"\n'
+            '  logInfo m!"SIG {c} {hash info.type}"\n'
+            + ''.join(f'#sig {t}\n#print axioms {t}\n' for t in theorems))
     apath = os.path.join(WORK, f'Audit_{self.pid}.lean')
     write_if_changed(apath, body)
     self.checker_cmds.append(f'cd lean && lake env lean ../work/Audit_{self.pid}.lean')
@@ -231,6 +247,25 @@ class Ctx:
     for m in re.finditer(r"'([^']+)' (does not depend on any axioms|depends on axioms: \[([^\]]*)\])", txt):
       axs = set() if m.group(3) is None else {a.strip() for a in m.group(3).replace('\n', ' ').split(',')}
       seen[m.group(1)] = axs
+    sigs = dict(re.findall(r'SIG (\S+) (\d+)', txt))
+    self.sigs_seen = getattr(self, 'sigs_seen', {})
+    self.sigs_seen.update(sigs)
+    pinned = load_sigs(self.pid)
+    if pinned is not None:
+      for t in sorted(set(pinned) - set(theorems)):
+        self.breaks.append(dict(kind='proof', name=t, detail='theorem is pinned in the .sig file but no longer indexed '
+                                '(dropped from lean/index)', input=None))
+    for t in theorems:
+      if pinned is not None and t in seen:
+        if t not in pinned:
+          self.breaks.append(dict(kind='proof', name=t, detail='indexed theorem has no pinned statement hash '
+                                  '(run harness/pinsigs.py after reviewing the statement)', input=None))
+        elif sigs.get(t) != pinned[t]:
+          self.obligations.append(dict(name=t + ' [statement pinned]', kind='theorem', ok=False,
+                                       detail=f'statement hash {sigs.get(t)} != pinned {pinned[t]}'))
+          self.breaks.append(dict(kind='proof', name=t, detail='the STATEMENT of this theorem changed since it was pinned '
+                                  f'(hash {sigs.get(t)} != {pinned[t]}): the property is no longer shown to hold in the '
+                                  'reviewed form', input=None))
     for t in theorems:
       if t not in seen:
         self.obligations.append(dict(name=t, kind='theorem', ok=False, detail='not found / does not compile'))
